@@ -321,6 +321,9 @@ func (env *SpecEnv) ident(name string) *Val {
 	if env.useLocals && env.at.b != nil {
 		// a local that is not in scope at this program point: unconstrained (an obligation must then hold for every value)
 		fx.note("contract mentions local '" + name + "' at a point where it is not in scope: treated as arbitrary")
+		if t := fx.localType(name); t != nil {
+			return env.st.freshVal(t, "unscoped_"+name)
+		}
 		return mkInt(fx.fresh("unscoped_"+name, "Int"), nil)
 	}
 	return env.fail("unknown identifier " + name)
